@@ -16,7 +16,7 @@ from cgroup import Case
 
 
 class CompilerProp:
-    def __init__(self, pid: str, gen: Callable, judge: Callable, n_quick: int, n_thorough: int, with_query=True, how: str = "", after: Optional[Callable] = None, nontrivial: Optional[Callable] = None, use_gxx: bool = False):
+    def __init__(self, pid: str, gen: Callable, judge: Callable, n_quick: int, n_thorough: int, with_query=True, how: str = "", after: Optional[Callable] = None, nontrivial: Optional[Callable] = None, use_gxx: bool = False, gxx_also: Optional[Callable] = None):
         self.pid = pid
         self.gen = gen
         self.judge = judge
@@ -25,6 +25,7 @@ class CompilerProp:
         self.with_query = with_query
         self.after = after
         self.use_gxx = use_gxx
+        self.gxx_also = gxx_also  # further cases that must go through g++ (e.g. programs the static checker rejects)
         self.nontrivial = nontrivial or cgroup.nontrivial
         self.how = how or "translate `source` (plus the synthetic metadata of tools/qgen.py) on `backend` through apply_ast_transformations + write_cpp_files; run the emitted per-event code on `events`"
 
@@ -42,7 +43,10 @@ class CompilerProp:
         if not self.use_gxx:
             return
         acc = [c for c in cases if c.result and c.result.get("ok") and c.answer and "bad" not in c.answer]
-        need = [c for c in acc if cgroup.needs_gxx(c)]
+        cgroup.attach_syntax(acc)
+        ctx.count("g++:syntax-checked", len(acc))
+        ctx.count("g++:narrowing-conversion(decided by g++)", len([c for c in acc if (getattr(c, "gxx_syntax", None) or {}).get("narrowing")]))
+        need = [c for c in acc if cgroup.needs_gxx(c) or (self.gxx_also is not None and self.gxx_also(c))]
         if ctx.tier == "thorough":
             extra = [c for c in acc if c not in need]
         else:
